@@ -111,7 +111,7 @@ def main(ctx):
                                            if k.startswith("uri|")}
     for ep in ("named", "mixed", "var+ct", "named+ct", "mixed+ct"):
         ctx.require("endpoint_signature|%s" % ep)
-    for n in ("session_reused", "service_object_falsy", "service_object_truthy", "receive_progress_false"):
+    for n in ("session_reused", "session_rejoined_on_same_transport", "service_object_falsy", "service_object_truthy", "receive_progress_false"):
         ctx.require(n)
     for fw in FWS:
         for beh in BEHAVIOURS:
@@ -130,6 +130,8 @@ def main(ctx):
             ctx.require("unknown_registration|%s|%s" % (tk, fw))
             ctx.require("two_concurrent|%s|%s" % (tk, fw))
             ctx.require("still_pending_checked|%s|%s" % (tk, fw))
+            if tk != "l1":
+                ctx.require("burst_reads|%s|%s" % (tk, fw))
 
 
 # ---------------------------------------------------------------------------
@@ -361,12 +363,18 @@ class Link2:
         opts = {"maxMessagePayloadSize": LIMIT, "failByDrop": False} if tk == "ws" else None
         self.ep, self.rt, self.session = L.open_session_endpoint(
             tk, case["sid"], plan, peer_exp=LIMIT_EXP, ws_opts=opts)
+        # burst: every read of the router's octets is cut in three, all queued before the loop runs
+        # (switched on by run_case once the registrations are in place)
+        self.burst = False
 
     def settle(self):
         self.ep.settle()
 
     def send(self, msgs, coalesce=True):
-        self.rt.send(*msgs, coalesce=coalesce)
+        if self.burst:
+            self.rt.send_burst(*msgs)
+        else:
+            self.rt.send(*msgs, coalesce=coalesce)
 
     def read(self):
         return self.rt.read()
@@ -480,6 +488,8 @@ def run_case(case):
         raise RuntimeError("harness: REGISTER messages not seen: %r escapes=%r" % (regs, link.escapes()))
     link.send([M.Registered(regs["com.proc.%d" % i], 500 + i) for i in range(len(invs))])
     pre = link.read()
+    if case.get("burst"):
+        link.burst = True
 
     def inv_msg(i, request=None, registration=None):
         a = invs[i].get("args", "full")
@@ -727,6 +737,10 @@ def job(a):
                             one_case(acc, dict(base, invs=[{"beh": beh, "rp": rp, "args": "full"}],
                                                det=det, script=script, coalesce=False, rp_false=True))
                             acc.inc("receive_progress_false")
+                        if a["level"] == 2 and not coalesce:
+                            one_case(acc, dict(base, invs=[{"beh": beh, "rp": rp, "args": "full"}],
+                                               det=det, script=script, coalesce=False, burst=True))
+                            acc.inc("burst_reads|%s|%s" % (a["tkind"], acc.fw))
                         if len(script) <= 2 and not coalesce:
                             # endpoint signature shapes x register(check_types=True)
                             for ep in ("named", "mixed", "var+ct", "named+ct", "mixed+ct"):
@@ -745,7 +759,10 @@ def job(a):
         unknown_cases(acc, base)
     elif kind == "reuse":
         reuse_cases(acc)
+        rejoin_cases(acc)
     return acc.result()
+
+
 
 
 def reuse_cases(acc):
@@ -885,6 +902,83 @@ def reuse_cases(acc):
                     "register(obj) on a %s service object: methods saw %r (expected %r), sent %r (expected %r), "
                     "raised %r %r" % ("falsy" if falsy else "truthy", svc.seen, want_seen, new, want_new, e1, e2),
                     {"kind": "reuse"})
+
+
+def rejoin_cases(acc):
+    """the application leaves while an endpoint is still running, keeps the transport (its onLeave does
+    not disconnect) and joins again on it: the old session's invocation is not answered into the new
+    session, and an INVOCATION of the new session that re-uses the request id is invoked and
+    answered exactly once"""
+    import txaio
+    from harness import wamp_l1 as H
+    from autobahn.wamp import message as M
+    fw = acc.fw
+    for who in ("client-leaves", "router-closes"):
+        for then in ("old-completes", "old-fails", "same-id-invocation", "other-id-invocation"):
+            l1 = H.L1(behave=lambda name: "keep" if name == "onLeave" else "return")
+            l1.join()
+            s = l1.session
+            pend, calls = [], []
+
+            def ep(*a_, **k_):
+                calls.append((a_, k_))
+                if len(calls) == 1:
+                    f = txaio.create_future()
+                    pend.append(f)
+                    return f
+                return "second-%d" % len(calls)
+            l1.api(s.register, ep, "com.rejoin.p")
+            l1.settle()
+            rq = [m for m in l1.transport.sent if isinstance(m, M.Register)][-1].request
+            l1.deliver(M.Registered(rq, 700))
+            l1.deliver(M.Invocation(1001, 700, args=[1]))
+            if who == "client-leaves":
+                l1.api(s.leave)
+                l1.settle()
+            e = l1.deliver(M.Goodbye("wamp.close.goodbye_and_out" if who == "client-leaves" else "wamp.close.system_shutdown"))
+            case = {"kind": "reuse", "rejoin": who, "then": then}
+            acc.evals += 1
+            acc.inc("nontrivial")
+            acc.inc("session_rejoined_on_same_transport")
+            if e is not None or not l1.transport.open:
+                acc.bad("C10|rejoin-setup|%s" % fw, "%s: GOODBYE raised %r / transport open=%s" % (
+                    who, e, l1.transport.open), case)
+                continue
+            r = l1.api(s.join, "realm1")
+            l1.settle()
+            e = l1.welcome(7654321)
+            if r[0] == "raise" or e is not None:
+                acc.bad("C10|rejoin-join-failed|%s" % fw, "%s: join -> %r, WELCOME raised %r" % (who, r, e), case)
+                continue
+            l1.api(s.register, ep, "com.rejoin.p")
+            l1.settle()
+            rq = [m for m in l1.transport.sent if isinstance(m, M.Register)][-1].request
+            l1.deliver(M.Registered(rq, 701))
+            n0 = len(l1.transport.sent)
+            ncalls = len(calls)
+            if then in ("old-completes", "old-fails"):
+                if then == "old-completes":
+                    txaio.resolve(pend[0], "late")
+                else:
+                    txaio.reject(pend[0], RuntimeError("late failure"))
+                l1.settle()
+                new = l1.transport.sent[n0:]
+                if new:
+                    acc.bad("C10|stale-reply-into-new-session|%s" % fw,
+                            "%s, then the endpoint of the OLD session's invocation 1001 %s: the new session sent %r" % (
+                                who, then, [(type(m).__name__, getattr(m, "request", None)) for m in new]), case)
+            else:
+                req = 1001 if then == "same-id-invocation" else 1002
+                e = l1.deliver(M.Invocation(req, 701, args=[2]))
+                l1.settle()
+                new = l1.transport.sent[n0:]
+                ok = (e is None and len(calls) == ncalls + 1 and len(new) == 1 and
+                      isinstance(new[0], M.Yield) and new[0].request == req)
+                if not ok:
+                    acc.bad("C10|rejoin-invocation-not-answered|%s" % fw,
+                            "%s, then INVOCATION %d in the new session: raised %r, endpoint calls %d (expected %d), sent %r" % (
+                                who, req, e, len(calls), ncalls + 1,
+                                [(type(m).__name__, getattr(m, "request", None)) for m in new]), case)
 
 
 def unknown_cases(acc, base):
